@@ -1,7 +1,34 @@
 import FormulaeModel.Driver.Base
+import FormulaeModel.Driver.C04
+import FormulaeModel.Spec.C05
 namespace FormulaeModel.Driver.C05
-open Lean FormulaeModel FormulaeModel.Driver
+open Lean FormulaeModel FormulaeModel.Driver FormulaeModel.Design FormulaeModel.Driver.C04
 
-def handle (_op : String) (_j : Json) : Option Json := none
+/-- Spec.C05 (block structure) on what the implementation returned for every group-specific term -/
+def specC05 (j : Json) : Json :=
+  let s := getStr j "formula"
+  match Scanner.scan s.toList with
+  | .error _ => errJ "scan"
+  | .ok ts =>
+    match Parser.parse Generated.parserTable ts with
+    | .error _ => errJ "parse"
+    | .ok e =>
+      let table := atomTable e
+      let frame := frameOfJson ((j.getObjVal? "frame").toOption.getD Json.null)
+      let names := namesOfJson ((j.getObjVal? "names").toOption.getD Json.null)
+      let env : Env := { frame, names }
+      let terms := (getArr j "terms").map (fun t =>
+        let x := matrixOfJson ((t.getObjVal? "x").toOption.getD Json.null)
+        let z := matrixOfJson ((t.getObjVal? "z").toOption.getD Json.null)
+        match Spec.C05.check env table (strList t "factor") (strList t "groups") x z with
+        | .ok v => Json.mkObj [("groups_ok", v.groupsOk), ("blocks_ok", v.blocksOk),
+                               ("rows_in_one_group", v.everyRowInOneGroup)]
+        | .error er => errTag er)
+      Json.mkObj [("terms", Json.arr terms.toArray)]
+
+def handle (op : String) (j : Json) : Option Json :=
+  match op with
+  | "c05_spec" => some (specC05 j)
+  | _ => none
 
 end FormulaeModel.Driver.C05
